@@ -262,6 +262,7 @@ type obsJSON struct {
 	K      string `json:"k"`
 	Shard  int64  `json:"shard"`
 	Leader string `json:"leader"`
+	Text   string `json:"text"` // k = "error": the text (hex) of an error in words the harness does not know
 }
 type implStep struct {
 	Obs         obsJSON `json:"obs"`
@@ -306,6 +307,8 @@ func classifyErr(err error, u string, st *implStep) {
 		// Which of the two tests comes first is not this property's business: one class.
 		st.reply = "served:updNotFound"
 	default:
+		// words this harness does not know: whether this is the refusal naming the leader is judged by its content
+		st.Obs = obsJSON{K: "error", Text: rig.Hex(msg)}
 		st.reply = "error:" + msg
 	}
 }
